@@ -48,6 +48,8 @@ pub(in super::super) struct BlockReader<'r, 's, R> {
 	/// Represents whether we were hinted deserialize_ignored_any. If yes, we
 	/// can use the block length to skip the block.
 	ignored: bool,
+	/// Whether we have read the end marker of the array/map
+	finished: bool,
 }
 impl<'r, 's, R> BlockReader<'r, 's, R> {
 	pub(in super::super) fn new(
@@ -61,6 +63,7 @@ impl<'r, 's, R> BlockReader<'r, 's, R> {
 			n_read: 0,
 			allowed_depth,
 			ignored: hinted_ignored,
+			finished: false,
 		}
 	}
 	fn has_more<'de>(&mut self) -> Result<bool, DeError>
@@ -71,7 +74,10 @@ impl<'r, 's, R> BlockReader<'r, 's, R> {
 			None => {
 				let new_len = read_block_len(self.reader, self.ignored)?;
 				match new_len {
-					None => return Ok(false),
+					None => {
+						self.finished = true;
+						return Ok(false);
+					}
 					Some(new_len) => {
 						let l = new_len.get();
 						let n_read = self.n_read.saturating_add(l);
@@ -94,6 +100,24 @@ impl<'r, 's, R> BlockReader<'r, 's, R> {
 pub(in super::super) struct ArraySeqAccess<'r, 's, R> {
 	pub(in super::super) block_reader: BlockReader<'r, 's, R>,
 	pub(in super::super) elements_schema: &'s SchemaNode<'s>,
+}
+impl<'de, R: ReadSlice<'de>> ArraySeqAccess<'_, '_, R> {
+	/// Have the visitor visit the array, then make sure that we are past the end
+	/// of the array.
+	///
+	/// Visitors of fixed-size sequences (tuples, `[T; N]`) stop asking for elements
+	/// once they have what they need, in which case the end marker of the array
+	/// has not been read yet, so what follows the array would be decoded from
+	/// the wrong position.
+	pub(in super::super) fn visit<V: Visitor<'de>>(mut self, visitor: V) -> Result<V::Value, DeError> {
+		let value = visitor.visit_seq(&mut self)?;
+		if !self.block_reader.finished && self.block_reader.has_more()? {
+			return Err(DeError::new(
+				"Array has more elements than what the type it is deserialized into reads",
+			));
+		}
+		Ok(value)
+	}
 }
 impl<'de, R: ReadSlice<'de>> SeqAccess<'de> for ArraySeqAccess<'_, '_, R> {
 	type Error = DeError;
